@@ -855,13 +855,32 @@ impl PatternFusion for MatMulAddFusion {
         graph: &Graph,
     ) -> Result<FusedMatMul, FusionError> {
         let bias_input = matmul_add_match.node_id("bias").unwrap();
-        let is_bias_a_vector = match graph.get_node(bias_input) {
-            Some(Node::Constant(const_node)) => const_node.shape().len() == 1,
-            _ => false,
+        let bias_len = match graph.get_node(bias_input) {
+            Some(Node::Constant(const_node)) => match const_node.shape() {
+                [len] => Some(*len),
+                _ => None,
+            },
+            _ => None,
+        };
+        let Some(bias_len) = bias_len else {
+            return Err(FusionError::CheckFailed("bias not a vector"));
         };
 
-        if !is_bias_a_vector {
-            return Err(FusionError::CheckFailed("bias not a vector"));
+        // The fused operator requires the bias length to match the number of
+        // columns in the output, whereas `Add` would broadcast the operands.
+        let rhs_input = matmul_add_match.node_id("b").unwrap();
+        let rhs_shape = graph
+            .get_node(rhs_input)
+            .and_then(|n| n.shape())
+            .ok_or(FusionError::CheckFailed("unknown RHS shape"))?;
+        let bias_matches_columns = match &rhs_shape[..] {
+            [.., _, Dimension::Fixed(cols)] => *cols == bias_len,
+            _ => false,
+        };
+        if !bias_matches_columns {
+            return Err(FusionError::CheckFailed(
+                "bias length does not match RHS columns",
+            ));
         }
 
         Ok(FusedMatMul { alpha: None })
@@ -1426,6 +1445,30 @@ impl PatternFusion for RepeatInterleaveFusion {
             // but haven't found a use for this.
             return Err(FusionError::NoEffect);
         };
+
+        // The new axis must be inserted directly after the repeated axis.
+        // If it was inserted before, the subgraph tiles the input along the
+        // axis instead of repeating each element.
+        let axes_id = pat_match.node_id("axes").ok_or(FusionError::NoMatch)?;
+        let Some(&[unsqueeze_axis]) = graph.get_vector::<i32>(axes_id) else {
+            return Err(FusionError::CheckFailed("unsupported unsqueeze axes"));
+        };
+        let unsqueeze_axis = if unsqueeze_axis < 0 {
+            unsqueeze_axis + in_shape.len() as i32 + 1
+        } else {
+            unsqueeze_axis
+        };
+        if unsqueeze_axis != axis as i32 + 1 {
+            return Err(FusionError::CheckFailed(
+                "new axis is not inserted after repeated axis",
+            ));
+        }
+
+        // The fused operator only supports float inputs.
+        let x_dtype = graph.get_node(x_id).and_then(|n| n.dtype());
+        if x_dtype != Some(ValueType::Tensor(DataType::Float)) {
+            return Err(FusionError::CheckFailed("input is not a float tensor"));
+        }
 
         Ok(RepeatInterleave { axis, repeats })
     }
